@@ -1416,14 +1416,24 @@ func (e *Engine) callOrdinal(fn *ssa.Function, instr ssa.Instruction, sub string
 	for _, b := range fn.Blocks {
 		for _, in := range b.Instrs {
 			n++
-			c, ok := in.(*ssa.Call)
-			if !ok {
+			var cc *ssa.CallCommon
+			switch c := in.(type) {
+			case *ssa.Call:
+				cc = &c.Call
+			case *ssa.Go:
+				cc = &c.Call
+			case *ssa.Defer:
+				cc = &c.Call
+			default:
+				continue
+			}
+			if _, isB := cc.Value.(*ssa.Builtin); isB && !cc.IsInvoke() {
 				continue
 			}
 			var key string
-			if c.Call.IsInvoke() {
-				key = methodKey(c.Call.Value.Type(), c.Call.Method.Name())
-			} else if f := c.Call.StaticCallee(); f != nil {
+			if cc.IsInvoke() {
+				key = methodKey(cc.Value.Type(), cc.Method.Name())
+			} else if f := cc.StaticCallee(); f != nil {
 				key = keyOf(f)
 			} else {
 				key = "<dynamic func value>"
